@@ -62,12 +62,13 @@ def main():
     extra = " ".join(re.findall(r"(?<!\S)(-D\S+|-m(?!arch)\S+|-pthread|-l\S+|-Wl,\S+|-f[a-z][a-z-]*(?:=\S+)?|-O[0-3s])", first))
     std = re.search(r"-std=(\S+)", first)
     std = std.group(1) if std else "c++14"
+    march = "-march=native" if "-march=native" in first else ""  # some demos are deliberately built for baseline x86-64
     if "-O" not in extra:
         extra += " -O1"
     res = {}
     for label, inc in (("with_change", os.path.join(wt, "include")), ("without_change", "/repo/include")):
         exe = os.path.join("/tmp", "seed_demo_%s_%s" % (sid, label))
-        c = sh("g++ -std=%s -march=native %s -I %s %s -o %s" % (std, extra, inc, demo, exe))
+        c = sh("g++ -std=%s %s %s -I %s %s -o %s" % (std, march, extra, inc, demo, exe))
         if c.returncode != 0:
             res[label] = "does not compile: " + c.stdout[-300:]
             continue
@@ -76,7 +77,7 @@ def main():
             res[label] = "exit %d, last line: %s" % (p.returncode, (p.stdout.strip().splitlines() or [""])[-1][:160])
         finally:
             os.remove(exe)
-    ran.append("demo.cpp (g++ -std=%s -march=native %s): with the change -> %s; without -> %s" % (std, extra, res["with_change"], res["without_change"]))
+    ran.append("demo.cpp (g++ -std=%s %s %s): with the change -> %s; without -> %s" % (std, march, extra, res["with_change"], res["without_change"]))
     demo_ok = res["with_change"].startswith("exit ") and not res["with_change"].startswith("exit 0") and res["without_change"].startswith("exit 0")
     confirmed = same and applies and identical and suite_ok and demo_ok
     for f in ("patch.diff", "demo.cpp", "notes.md"):
